@@ -541,7 +541,12 @@ pub fn replay_main(def: &PropDef, path: &str) -> i32 {
         }
     };
     let v: Value = serde_json::from_str(&s).expect("replay json");
-    let case = v.get("case").cloned().unwrap_or(Value::Null);
+    let mut case = v.get("case").cloned().unwrap_or(Value::Null);
+    // annotations the driver added next to the case's own fields (an externally tagged enum must
+    // be a single-key object to decode)
+    if let Some(o) = case.as_object_mut() {
+        o.retain(|k, _| !k.starts_with('_'));
+    }
     let rep = (def.replay)(&case);
     if let Some(s) = &rep.sample {
         println!("{}", serde_json::to_string_pretty(s).unwrap());
